@@ -100,6 +100,11 @@ def check_method(ctx, which, dex, dx, ma, em, ref, wit, shipped=False):
             viol("C08", "determineException-raises", "determineException raises", {"exc": exc_str(e)})
             exc = None
         if exc is not None:
+            if any(len(h) != 2 for e in exc for h in e[2:]):
+                # a handler entry is [type, address]; anything more (e.g. a basic block of some earlier analysis appended to a shared list) is not
+                # what the code item encodes
+                viol("C08", "handler-entry-carries-extra-elements", "a reported handler entry is not [type, address]",
+                     {"got": [[e[0], e[1]] + [[repr(x)[:60] for x in h] for h in e[2:]] for e in exc][:6]})
             got = sorted((e[0], e[1], [(h[0], h[1]) for h in e[2:]]) for e in exc)
             want = sorted((a, b, list(hs)) for a, b, hs in ref.tries)
             if got != want:
@@ -289,7 +294,15 @@ def shard_generated(ctx, arg):
         except Exception as e:
             ctx.violation("analysis-raises", "DEX()/Analysis() raises on generated valid code", {"exc": exc_str(e), "features": [m.features for m in ms]})
             continue
-        for m, nm in zip(ms, names):
+        passes = [(an, None)]
+        if rng.random() < 0.3:
+            # the same DEX object analysed a second time (sessions, re-analysis after adding files): the answers must not depend on earlier analyses
+            try:
+                passes.append((Analysis(dx), "second Analysis() over the same DEX object"))
+                ctx.count("second_analysis_of_same_dex")
+            except Exception as e:
+                ctx.violation("analysis-raises", "a second Analysis() over the same DEX object raises", {"exc": exc_str(e), "features": [m.features for m in ms]})
+        for (an, note), (m, nm) in [(p_, z_) for p_ in passes for z_ in zip(ms, names)]:
             em = dx.get_encoded_methods_class_method(cfg.CLS, nm)
             ma = an.get_method(em)
             units = w.code_units[(cfg.CLS, nm, "V", ())][1]
@@ -308,6 +321,8 @@ def shard_generated(ctx, arg):
                 continue
             ctx.ev()
             wit = {"units": ["%04x" % u for u in units][:250], "tries": [(a, b, hs) for a, b, hs in ref.tries], "features": m.features}
+            if note:
+                wit["history"] = note
             check_method(ctx, which, dex, dx, ma, em, ref, wit)
             if which == "C12" or which == "C08":
                 if ref.tries:
